@@ -57,11 +57,11 @@ def scenario_specs(tier, rng):
     from props.c12_scen import META, PLATFORMS
     specs = []
     for stack in ("sync", "async"):
-        for v in ("ok", "bad"):
+        for v in ("ok", "bad", "badrepass"):
             specs.append(dict(kind="telnet", stack=stack, variant=v))
         specs.append(dict(kind="telnet", stack=stack, variant="bad", ctx=True))
         specs.append(dict(kind="telnet", stack=stack, variant="bad", timeout_on_stall=True))
-        for v in ("ok", "phrase", "badpw", "badphrase"):
+        for v in ("ok", "phrase", "badpw", "badphrase", "badpwquiet"):
             specs.append(dict(kind="ssh", stack=stack, variant=v))
         if stack == "sync":
             specs.append(dict(kind="ssh", stack=stack, variant="badpw", ctx=True))
